@@ -536,7 +536,8 @@ void RouterSession::run() {
         if (edited) {
             if (o != "moveShape") zeroMoveOnly = false;
             edit();
-            if (!useTransactions) { disarmFaults(true); pendingEdits = 0; addedThisTxn.clear(); addedJunctionsThisTxn.clear(); afterTransaction(o.c_str(), true); }
+            // in immediate mode only shape edits are certain to run a whole implicit transaction (recovery after a cancel counts from those)
+            if (!useTransactions) { disarmFaults(o == "moveShape" || o == "reshape" || o == "addShape" || o == "deleteShape"); pendingEdits = 0; addedThisTxn.clear(); addedJunctionsThisTxn.clear(); afterTransaction(o.c_str(), true); }
         }
         yield("op");
     }
